@@ -103,6 +103,7 @@ type OpRes struct {
 	Backing     []string
 	BackingLen  int
 	SlotWasSet  bool
+	SelfIs      bool // m.Is(m.String()) on a detection result (exercises the accessor; judged only by the race detector)
 }
 
 type opCtx struct {
@@ -135,27 +136,34 @@ type World struct {
 
 const canary = 0xC3
 
+// withCanary copies x into a buffer whose spare capacity holds bytes the
+// library must neither read nor write: a verdict-flipping tail (a binary byte,
+// closing brackets, a zip entry, a <meta>, an <svg>, ...) chosen by the length
+// of x, followed by a constant filler. A detector that peeks beyond len(raw)
+// through the capacity changes its answer; a write there is seen afterwards.
 func withCanary(x []byte) []byte {
-	b := make([]byte, len(x), len(x)+24)
+	spare := spareFor(len(x))
+	b := make([]byte, len(x), len(x)+len(spare))
 	copy(b, x)
-	full := b[:cap(b)]
-	for i := len(x); i < len(full); i++ {
-		full[i] = canary
-	}
+	copy(b[len(x):cap(b)], spare)
 	return b
+}
+
+func spareFor(n int) []byte {
+	t := inputs.Tails[1+n%(len(inputs.Tails)-1)]
+	spare := make([]byte, 0, len(t)+24)
+	spare = append(spare, t...)
+	for i := 0; i < 24; i++ {
+		spare = append(spare, canary)
+	}
+	return spare
 }
 
 func canaryIntact(b, want []byte) bool {
 	if !bytes.Equal(b, want) {
 		return false
 	}
-	full := b[:cap(b)]
-	for i := len(b); i < len(full); i++ {
-		if full[i] != canary {
-			return false
-		}
-	}
-	return true
+	return bytes.Equal(b[len(b):cap(b)], spareFor(len(want)))
 }
 
 // CanaryString fills unused alias array cells.
@@ -403,6 +411,7 @@ func (w *World) Exec(t *core.Task, ti, oi int) {
 		m := mimetype.Detect(buf)
 		t.OpReturn(oi)
 		res.R = lib.Observe(m)
+		res.SelfIs = m != nil && m.Is(m.String())
 		if op.Shared == 0 {
 			res.BufChanged = !canaryIntact(buf, x)
 		}
@@ -484,6 +493,12 @@ func (w *World) Exec(t *core.Task, ti, oi int) {
 		if set {
 			t.Yield(core.KHandoff, nil, "slot", int64(op.Slot))
 			res.R = lib.Observe(m)
+			if m != nil {
+				res.SelfIs = m.Is(m.String())
+				for p := m.Parent(); p != nil; p = p.Parent() {
+					_ = p.Is("application/octet-stream")
+				}
+			}
 			res.Same = res.R.Key() == obs.Key()
 			res.UseOf = from
 		}
